@@ -194,6 +194,7 @@ type Client struct {
 
 	WS     *ws.Conn
 	wsMu   sync.Mutex
+	postSem chan struct{}
 	WT     *webtrans.Conn
 	WTStream *fakenet.Stream // client side
 	WTServerStream *fakenet.Stream
@@ -346,7 +347,7 @@ func (w *World) Connect(cfg ClientCfg) (*Client, error) {
 	if cfg.Transport == "" {
 		cfg.Transport = "polling"
 	}
-	c := &Client{W: w, Cfg: cfg}
+	c := &Client{W: w, Cfg: cfg, postSem: make(chan struct{}, 1)}
 	var first []refcodec.Packet
 	switch cfg.Transport {
 	case "polling":
@@ -526,7 +527,13 @@ func (c *Client) PostStart(ps []refcodec.Packet) *Exchange {
 }
 
 // Post submits packets and waits for the acknowledgement.
-func (c *Client) Post(ps ...refcodec.Packet) HTTPResult { return c.PostStart(ps).Wait() }
+// A conformant client has at most one data request in flight: calls are serialised.
+func (c *Client) Post(ps ...refcodec.Packet) HTTPResult {
+	// a channel, not a mutex: waiting for it must be a durable block for the bubble
+	c.postSem <- struct{}{}
+	defer func() { <-c.postSem }()
+	return c.PostStart(ps).Wait()
+}
 
 // PollStart issues a poll request.
 func (c *Client) PollStart() *Exchange {
